@@ -14,7 +14,8 @@ repeated mode, an index equal to the bound.
 
 Oracle: the call raises some ``Exception`` (type not constrained) — otherwise kind ``no-exception`` with clause
 ``<violation>`` — and the bit-exact snapshot of every operand taken before the call equals the one taken after it —
-otherwise clause ``<violation>:operand-changed``.
+otherwise clause ``<violation>:operand-changed`` — and every operand still satisfies the invariants of its class (data / subs /
+vals / factors consistent with the shape) — otherwise ``<violation>:operand-malformed`` (round 4).
 """
 
 from __future__ import annotations
@@ -55,7 +56,15 @@ RULE = (
     "tolist, update, *, to_tenmat), ttensor (mttkrp, reconstruct, *) and mttkrp of sptensor / ktensor / ttensor / sumtensor; "
     "receivers of in-place Kruskal operations that share their arrays with the caller (copy=False: the caller's arrays are "
     "operands too); cp_als / cp_apr requests that also carry maxiters=0 / stoptime=0 (nothing is iterated, the request is "
-    "still ill-formed)."
+    "still ill-formed).  Round 4: every rejected request must also leave its operands well-formed (clause :operand-malformed); "
+    "item assignment in all key forms on dense and sparse tensors (subscript array, subtensor, linear) with an ill-formed "
+    "right-hand side or a later invalid key whose valid part reaches beyond the present extent / adds modes, in-place Kruskal "
+    "operations (redistribute, arrange, fixsigns, normalize) with an invalid mode or an inconsistent operand, tenmat item "
+    "assignment, sumtensor +=; requests that NumPy broadcasting would hide (C19/broadcast: shapes with mostly / only singleton "
+    "modes; selfdims / otherdims of different lengths incl. length 0 and bare ints, orders that differ by singleton modes in "
+    "innerprod / sparse operators / Kruskal sums, multiplicand lists of the wrong length on all-ones shapes, one-entry vectors, "
+    "single-column factors, scale factors for fewer dims than named); out-of-range / negative / repeated modes in collapse, "
+    "contract, mttkrp."
 )
 ASSUMPTIONS = [
     "exception type is not constrained (AssertionError, ValueError, IndexError raised by numpy on behalf of the "
@@ -105,6 +114,35 @@ def snap(x):
     return ("other", repr(x))
 
 
+def wellformed(x):
+    """(round 4) the invariants of an object's class: what every operation may rely on, also after a rejected request"""
+    try:
+        if isinstance(x, ttb.tensor):
+            return isinstance(x.data, np.ndarray) and tuple(x.data.shape) == tuple(x.shape)
+        if isinstance(x, ttb.sptensor):
+            if np.asarray(x.vals).size == 0:
+                return np.asarray(x.subs).size == 0
+            n = x.vals.shape[0]
+            return (x.subs.ndim == 2 and x.subs.shape == (n, len(x.shape)) and x.vals.shape == (n, 1)
+                    and np.issubdtype(x.subs.dtype, np.integer) and bool(np.all(x.subs >= 0))
+                    and bool(np.all(x.subs < np.array(x.shape, dtype=np.int64)[None, :])))
+        if isinstance(x, ttb.ktensor):
+            R = x.weights.shape[0]
+            return x.weights.ndim == 1 and all(f.ndim == 2 and f.shape[1] == R for f in x.factor_matrices)
+        if isinstance(x, ttb.ttensor):
+            return (wellformed(x.core) and len(x.factor_matrices) == len(x.core.shape)
+                    and all(f.ndim == 2 and f.shape[1] == c for f, c in zip(x.factor_matrices, x.core.shape)))
+        if isinstance(x, ttb.tenmat):
+            return x.data.size == ref.prod(x.tshape)
+        if isinstance(x, ttb.sumtensor):
+            return all(wellformed(p) for p in x.parts)
+        if isinstance(x, (list, tuple)):
+            return all(wellformed(e) for e in x)
+        return True
+    except Exception:  # noqa: BLE001
+        return False
+
+
 _ALSO = []  # further objects that must stay as they are (arrays a receiver shares with its caller); cleared by begin()
 
 
@@ -122,6 +160,7 @@ def reject(ctx, viol, fn, *operands):
         ctx.fail("no-exception", viol, f"returned {type(r).__name__} shape={sh}: {repr(r)[:200]}")
     after = [snap(o) for o in operands]
     ctx.check(before == after, f"{viol}:operand-changed")
+    ctx.check(all(wellformed(o) for o in operands), f"{viol}:operand-malformed")
     if not raised:
         return
     # the same request once more: what the rejected attempt left behind (caches, half-done work) must not make it pass
@@ -330,12 +369,12 @@ def table_case(viols, min_order=2, max_order=4, **extra):
     return strat
 
 
-def table(cellname, viols, per=40, min_order=2, max_order=4, **extra):
-    """one cell per (operation, violation): `cellname/<violation>`, `per` cases each (x20 in the thorough tier)"""
+def table(cellname, viols, per=40, min_order=2, max_order=4, tmul=20, **extra):
+    """one cell per (operation, violation): `cellname/<violation>`, `per` cases each (x20 in the thorough tier; x`tmul`)"""
 
     def deco(fn):
         for v in viols:
-            cell(f"{cellname}/{v}", strategy=table_case([v], min_order, max_order, **extra), quick=per, thorough=per * 20,
+            cell(f"{cellname}/{v}", strategy=table_case([v], min_order, max_order, **extra), quick=per, thorough=per * tmul,
                  shards=(1, 2))(fn)
         return fn
 
@@ -2303,6 +2342,487 @@ def c_import(ctx, case):
 
 
 # ==========================================================================
+# round 4, class 12: in-place operations with an ill-formed request whose valid part would change the receiver
+# ==========================================================================
+
+_V = stated(
+    "C19/setitem",
+    subs_wrong_number_of_values="sptensor.py:2474 'Number of subscripts and number of values do not match!'; tensor.__setitem__ "
+                                "docstring: 'V is a scalar or a vector containing p values' (numpy rejects another count)",
+    subs_values_not_a_column="pyttb_utils.py tt_valscheck 'Values must be in array' (sptensor item assignment, column required)",
+    subs_fewer_columns="sptensor.py:2432 'Invalid subscripts' (fewer columns than modes); tensor: 'S is a p x n array of subscripts'",
+    subs_negative_subscript="pyttb_utils.py tt_subscheck 'Subscripts must be a matrix of real positive integers'",
+    subtensor_value_wrong_shape="sptensor.py:2558 'RHS does not match range size' / :2707 'Invalid assignment value'; tensor: the "
+                                "right-hand side replaces 'the rectangular subtensor specified by the ranges' (numpy rejects "
+                                "another shape)",
+    subtensor_later_key_invalid="tensor.py:2168 ValueError('Entries for setitem must be numeric ...'), slice bounds must be "
+                                "integers; sptensor.py:2625 'Must have well defined slice when expanding sptensor shape with setitem'",
+    linear_beyond_extent="tensor.py:2143 'TTB:BadIndex In assignment X[I] = Y, a tensor X cannot be resized'",
+    linear_wrong_number_of_values="tensor.__setitem__ docstring: 'V is a scalar or a vector containing p values'",
+)
+
+_SETITEM_HOLDER = dict(subs_values_not_a_column="sptensor", subs_negative_subscript="sptensor", linear_beyond_extent="tensor",
+                       linear_wrong_number_of_values="tensor")
+
+
+def setitem_class(c):
+    """pure function of the case: (holder, would the valid part of the request enlarge some mode, would it add modes)"""
+    h = _SETITEM_HOLDER.get(c["viol"], c["holder"])
+    if c["viol"].startswith("linear") or c["viol"] == "subs_fewer_columns":
+        return h, False, False
+    og = bool(c["og"]) and c["viol"].startswith("subs") and c["viol"] != "subs_negative_subscript"
+    return h, bool(c["grow"]), og
+
+
+def _setitem_value_kind(c):
+    return ["ndarray", "tensor", "sptensor-list-key"][c["b"] % 3]
+
+
+@table("C19/setitem", _V, per=40, min_order=2, max_order=3, tmul=8, holder=["tensor", "sptensor"], grow=[True, True, False],
+       og=[False, False, True])
+def c_setitem(ctx, case):
+    """X[key] = value, all key forms, dense and sparse: a rejected assignment leaves X exactly as it was - also when the
+    subscripts reach beyond the present extent (a valid assignment of that kind would have enlarged X)"""
+    begin(ctx, "C19/setitem", case)
+    state(dict(case, zs=False, prov=case.get("prov", "ctor")))
+    shape, a, b, k, v = list(case["shape"]), case["a"], case["b"], case["k"], case["viol"]
+    N = len(shape)
+    h, grow, og = setitem_class(case)
+    ctx.label(h, "would-enlarge-a-mode" if grow else "inside-extent", "would-add-a-mode" if og else "same-order")
+    X = dense(shape, k) if h == "tensor" else sparse(shape, case["pattern"], k)
+    name = f"{v}/{h}"
+    m = a % N
+    beyond = shape[m] + b % 3  # first subscript outside mode m
+    allsubs = ref.all_subs_F(shape)
+    p = 2 + k % 2
+    rows = [list(allsubs[(a * 5 + 3 * j) % len(allsubs)]) for j in range(p)]
+
+    def col(vs):
+        return np.array(vs, dtype=float).reshape(-1, 1) if h == "sptensor" else np.array(vs, dtype=float)
+
+    if v.startswith("subs"):
+        if grow:
+            rows[-1][m] = beyond
+        if og:
+            rows = [r_ + [j % 2] for j, r_ in enumerate(rows)]
+        if v == "subs_wrong_number_of_values":
+            subs = np.array(rows, dtype=int)
+            nv = p + 1 if b % 2 else p - 1
+            if nv < 2:
+                nv = p + 1
+            ctx.label("one-value-more" if nv > p else "one-value-fewer")
+            vals = col(vals_for(nv, 2))
+        elif v == "subs_values_not_a_column":
+            subs = np.array(rows, dtype=int)
+            vals = np.array(vals_for(p, 2), dtype=float) if b % 2 else np.array(vals_for(2 * p, 2), dtype=float).reshape(p, 2)
+            ctx.label("flat-values" if b % 2 else "two-column-values")
+        elif v == "subs_fewer_columns":
+            if N < 3:
+                shape = shape + [2]
+                N = 3
+                X = dense(shape, k) if h == "tensor" else sparse(shape, case["pattern"], k)
+                rows = [r_ + [0] for r_ in rows]
+            subs = np.array([r_[:-1] for r_ in rows], dtype=int)
+            vals = col(vals_for(p, 2))
+        else:
+            rows[0][(m + 1) % N] = -1
+            subs = np.array(rows, dtype=int)
+            vals = col(vals_for(p, 2))
+        reject(ctx, name, lambda: X.__setitem__(subs, vals), X, subs, vals)
+    elif v == "subtensor_value_wrong_shape":
+        # key: a slice in mode m (reaching beyond the extent when the case says so), a slice or an index elsewhere
+        stop = beyond + 1 if grow else shape[m]
+        lo = max(0, stop - 2)
+        key, region = [], []
+        for j in range(N):
+            if j == m:
+                key.append(slice(lo, stop))
+                region.append(stop - lo)
+            elif (a >> j) & 1 and shape[j] > 1:
+                key.append(slice(0, shape[j]))
+                region.append(shape[j])
+            else:
+                key.append(shape[j] - 1)
+        wrong = list(region)
+        wrong[sum(1 for j in range(m) if isinstance(key[j], slice))] += 1  # mode m: one more entry than the range holds
+        vk = _setitem_value_kind(case)
+        if h == "tensor":
+            val = np.ones(tuple(wrong)) if vk == "ndarray" else dense(wrong, 1, role="other")
+            ctx.label("value-" + type(val).__name__)
+        elif vk == "sptensor-list-key":
+            key[m] = list(range(lo, stop))
+            val = sparse(wrong, "full", 1)
+            ctx.label("value-sptensor-wrong-size")
+        else:
+            val = np.ones(tuple(region)) if vk == "ndarray" else dense(region, 1, role="other")
+            ctx.label("value-" + type(val).__name__ + "-not-assignable")
+        key = tuple(key)
+        reject(ctx, name, lambda: X.__setitem__(key, val), X, val)
+    elif v == "subtensor_later_key_invalid":
+        key = [min(1, s - 1) for s in shape]
+        if grow:
+            key[0] = shape[0] + b % 3
+        if h == "tensor":
+            bad = [["a"], slice(0, 1.5), [0, "b"]][b % 3]
+            ctx.label("later-key-" + ("float-slice" if isinstance(bad, slice) else "non-numeric-list"))
+            key[-1] = bad
+        else:
+            key = key + [slice(None)]  # an open slice in a mode that does not exist yet
+            ctx.label("later-key-open-slice-in-new-mode")
+        key = tuple(key)
+        reject(ctx, name, lambda: X.__setitem__(key, 5.0), X)
+    elif v == "linear_beyond_extent":
+        n = ref.prod(shape)
+        idx = np.array([a % n, n + 1 + b % 3])
+        vals = np.array([7.0, 8.0])
+        reject(ctx, name, lambda: X.__setitem__(idx, vals if b % 2 else 7.0), X)
+    else:
+        n = ref.prod(shape)
+        idx = np.array([(a + j) % n for j in range(2)])
+        vals = np.array(vals_for(3, 1))
+        reject(ctx, name, lambda: X.__setitem__(idx, vals), X, vals)
+
+
+_V = stated(
+    "C19/inplace",
+    redistribute_mode_invalid="ktensor.redistribute docstring: 'mode: Must be value in [0,...self.ndims]' (factor_matrices[mode] "
+                              "does not exist: IndexError / TypeError)",
+    arrange_weight_factor_invalid="ktensor.arrange docstring: 'weight_factor: Index of the factor matrix the weights will be "
+                                  "absorbed into' (no such factor: IndexError / TypeError)",
+    arrange_permutation_not_a_permutation="ktensor.arrange docstring: 'The permutation must be of length equal to the number of "
+                                          "components ... and must be a permutation of [0,...,self.ncomponents-1]'",
+    fixsigns_other_inconsistent="[property statement] Kruskal operands that are dimensionally inconsistent: other has another "
+                                "number of components / another shape / fewer modes (numpy rejects the products)",
+    normalize_sort_and_mode_invalid="ktensor.py:1376 'Parameter single_factor is invalid; index must be an int in range of number "
+                                    "of dimensions' - together with sort=True / normtype=1",
+    tenmat_index_beyond_extent="tenmat item assignment writes into the matrix it holds (numpy IndexError; a tenmat is never resized)",
+    tenmat_value_wrong_shape="same (numpy: could not broadcast input array)",
+    sumtensor_iadd_shape_mismatch="sumtensor.py:56 'All tensors must be the same shape' (S += X is S = S + X)",
+)
+
+
+@table("C19/inplace", _V, per=30, min_order=2, max_order=4, tmul=8)
+def c_inplace(ctx, case):
+    begin(ctx, "C19/inplace", case)
+    state(dict(case, zs=False, zo=False))
+    import operator
+
+    shape, r, a, b, v = list(case["shape"]), case["r"] + 1, case["a"], case["b"], case["viol"]
+    N = len(shape)
+    if v.startswith(("redistribute", "arrange", "fixsigns", "normalize")):
+        K = kten(shape, r, case["k"])
+        if case["k"] % 2:  # the receiver shares its arrays with the caller: they are operands too
+            src = [np.asfortranarray(f.copy()) for f in K.factor_matrices], K.weights.copy()
+            K = ttb.ktensor(src[0], src[1], copy=False)
+            _ALSO.extend([src[0], src[1]])
+            ctx.label("receiver-built-with-copy-False")
+        if v == "redistribute_mode_invalid":
+            mode = [N, -N - 1, "all", None, 1.5, N + 1][b % 6]
+            ctx.label("mode-" + type(mode).__name__)
+            reject(ctx, v, lambda: K.redistribute(mode), K)
+        elif v == "arrange_weight_factor_invalid":
+            wf = [N, -N - 1, "all", N + 1][b % 4]
+            ctx.label("weight_factor-" + type(wf).__name__)
+            reject(ctx, v, lambda: K.arrange(weight_factor=wf), K)
+        elif v == "arrange_permutation_not_a_permutation":
+            perm = list(range(r))
+            sub = ["repeated", "entry-equal-bound"][b % 2]
+            perm[a % r] = perm[(a + 1) % r] if sub == "repeated" else r
+            arg = perm if a % 2 else np.array(perm, dtype=int)
+            ctx.label("permutation-" + sub)
+            reject(ctx, f"{v}/{sub}", lambda: K.arrange(permutation=arg), K)
+        elif v == "fixsigns_other_inconsistent":
+            sub = ["more-components", "other-shape", "fewer-modes"][b % 3]
+            if sub == "more-components":
+                Y = kten(shape, r + 1, 1, role="other")
+            elif sub == "other-shape":
+                o = list(shape)
+                o[a % N] += 1
+                Y = kten(o, r, 1, role="other")
+            else:
+                Y = kten(shape[:-1], r, 1, role="other")
+            ctx.label("other-" + sub)
+            reject(ctx, f"{v}/{sub}", lambda: K.fixsigns(Y), K, Y)
+        else:
+            mode = [N, -N - 1, 1.5][b % 3]
+            kw = [dict(sort=True), dict(normtype=1), dict(sort=True, normtype=1)][a % 3]
+            reject(ctx, v, lambda: K.normalize(mode=mode, **kw), K)
+    elif v.startswith("tenmat"):
+        k = 1 + a % (N - 1)
+        nr, nc = ref.prod(shape[:k]), ref.prod(shape[k:])
+        A = ttb.tenmat(np.array(vals_for(nr * nc), dtype=float).reshape(nr, nc), np.arange(k), np.arange(k, N), tuple(shape))
+        if v == "tenmat_index_beyond_extent":
+            key = [(nr + b % 2, 0), (0, nc + b % 2), ([0, nr], 0), (slice(0, 1), nc)][a % 4]
+            val = 7.0
+        else:
+            key = [(slice(None), 0), (0, slice(None)), (slice(None), slice(None))][a % 3]
+            val = [np.ones(nr + 1), np.ones(nc + 1), np.ones((nr + 1, nc))][a % 3]
+        reject(ctx, v, lambda: A.__setitem__(key, val), A)
+    else:
+        P = holder(["tensor", "sptensor", "ktensor", "ttensor"][a % 4], shape, 0, case["pattern"], 2)
+        S = ttb.sumtensor([P] if b % 2 else [P, dense(shape, 2)])
+        kd, oshape = mismatch(shape, case["mm"], a)
+        Y = other(["tensor", "sptensor", "ktensor", "ttensor"][b % 4], oshape, 1, "some", 2)
+        ctx.label("mm-" + kd)
+        reject(ctx, v, lambda: operator.iadd(S, Y), S, Y)
+
+
+# ==========================================================================
+# round 4, class 14: ill-formed requests that NumPy broadcasting would hide - argument lists of different lengths, empty
+# lists, every other extent equal to 1
+# ==========================================================================
+
+
+@st.composite
+def ones_shape(draw, tier, min_order=2, max_order=4):
+    """mostly singleton modes; all modes singleton in a quarter of the cases and more"""
+    N = draw(st.integers(min_order, max_order))
+    if draw(st.integers(0, 3)) == 0:
+        return [1] * N
+    return [draw(st.sampled_from([1, 1, 2, 3, 4])) for _ in range(N)]
+
+
+_V = stated(
+    "C19/broadcast",
+    ttt_dims_lists_of_different_lengths="tensor.py:1733 'Specified dimensions do not match' (the extents of selfdims and otherdims "
+                                        "are compared as tuples: lists of different lengths never match)",
+    ttt_dims_repeated="tensor.py ttt -> to_tenmat: 'the sorted concatenation of rdims and cdims must be range(source.ndims)'; "
+                      "[property statement] mode arguments that are repeated",
+    innerprod_orders_differ="tensor.py:742 'Inner product must be between tensors of the same size'; sptensor.py:898/913; "
+                            "ktensor.py:1051; ttensor.py:308/325",
+    ttv_list_length="pyttb_utils.py:201 'Invalid number of multiplicands'",
+    ttm_list_length="pyttb_utils.py:201 'Invalid number of multiplicands'",
+    ttv_vector_wrong_length="'Multiplicand is wrong size' (tensor.py:1784, sptensor.py:1984, ktensor.py:2094, ttensor.py:407)",
+    mttkrp_single_column_factor="khatrirao.py:55 'All matrices must have the same number of columns.'; [property statement] "
+                                "factor lists of the wrong ... column count",
+    scale_factor_for_fewer_dims="tensor.py:1344 ValueError('Scaling factor has shape ...'); sptensor.py:1728 'Size mismatch in scale'",
+    sparse_operator_orders_differ="sptensor.py:2840/2960/3293/2637/2739/3052/1018/1121/1193 same-shape requirements of the sparse "
+                                  "element-wise operators",
+    kruskal_sum_orders_differ="ktensor.py:2456/2504 'Must be two ktensors of the same shape'",
+    contract_singleton_with_n="tensor.py:460 / sptensor.py:553 'Must contract along equally sized dimensions'",
+)
+
+
+def _bcast_case(viol):
+    @st.composite
+    def strat(draw, tier):
+        return dict(viol=viol, shape=draw(ones_shape(tier)), a=draw(st.integers(0, 15)), b=draw(st.integers(0, 15)),
+                    k=draw(st.integers(0, 5)), r=draw(st.integers(1, 3)),
+                    pattern=draw(st.sampled_from(["some", "full", "one", "empty", "zeros"])),
+                    first=draw(st.sampled_from(["tensor", "sptensor", "ktensor", "ttensor", "sumtensor"])),
+                    other=draw(st.sampled_from(["tensor", "sptensor", "ktensor", "ttensor"])),
+                    e=draw(st.sampled_from([1, 1, 1, 2])), zs=False, zo=draw(st.sampled_from([False, False, True])),
+                    prov=draw(st.sampled_from(["ctor", "grown"])), idt=draw(st.sampled_from(["float", "int64"])))
+
+    return strat
+
+
+def _bcast_cells(fn):
+    for v in _V:
+        cell(f"C19/broadcast/{v}", strategy=_bcast_case(v), quick=40, thorough=300, shards=(1, 2))(fn)
+    return fn
+
+
+def mttkrp_onecol(c):
+    """pure function of the case: (mode n of the mttkrp, index i of the factor that has a single column)"""
+    N = max(len(c["shape"]), 3)
+    n = c["a"] % N
+    return n, [j for j in range(N) if j != n][c["b"] % (N - 1)]
+
+
+def ttt_lists(c):
+    """pure function of the case: lengths (p, q) of selfdims / otherdims, p != q"""
+    p = c["a"] % 3
+    q = (p + 1 + c["b"] % 2) % 3
+    return p, q
+
+
+@_bcast_cells
+def c_broadcast(ctx, case):
+    begin(ctx, "C19/broadcast", case)
+    shape, a, b, k, v, r, e = list(case["shape"]), case["a"], case["b"], case["k"], case["viol"], case["r"] + 1, case["e"]
+    N = len(shape)
+    allones = all(s == 1 for s in shape)
+    ctx.label("all-modes-singleton" if allones else "some-modes-singleton" if 1 in shape else "no-singleton")
+    if v == "ttt_dims_lists_of_different_lengths":
+        p, q = ttt_lists(case)
+        free_x, free_y = shape[:1 + a % 2], shape[1:2 + b % 2]
+        xs = [e] * p + free_x
+        ys = [e] * q + free_y
+        # contracted modes first or last
+        if a % 4 >= 2:
+            xs, sd = free_x + [e] * p, list(range(len(free_x), len(free_x) + p))
+        else:
+            sd = list(range(p))
+        if b % 4 >= 2:
+            ys, od = free_y + [e] * q, list(range(len(free_y), len(free_y) + q))
+        else:
+            od = list(range(q))
+        X, Y = dense(xs, k), dense(ys, k + 1, role="other")
+        ctx.label(f"lengths-{p}-{q}", "contracted-extent-1" if e == 1 else "contracted-extent>1")
+        form = b % 3
+        if form == 0:
+            sda, oda = np.array(sd, dtype=int), np.array(od, dtype=int)
+        elif form == 1:
+            sda, oda = np.array(sd, dtype=np.int32), np.array(od, dtype=np.int64)
+        else:  # a bare int where the list has one entry
+            sda = sd[0] if p == 1 else np.array(sd, dtype=int)
+            oda = od[0] if q == 1 else np.array(od, dtype=int)
+        reject(ctx, v, lambda: X.ttt(Y, sda, oda), X, Y)
+    elif v == "ttt_dims_repeated":
+        # the same mode twice on one side, two different (equally long) modes on the other: every extent comparison passes
+        xs, ys = [e] + shape[:1 + a % 2], [e, e] + shape[1:2 + b % 2]
+        X, Y = dense(xs, k), dense(ys, k + 1, role="other")
+        ctx.label("contracted-extent-1" if e == 1 else "contracted-extent>1")
+        if a % 2:
+            reject(ctx, v, lambda: X.ttt(Y, np.array([0, 0]), np.array([0, 1])), X, Y)
+        else:
+            reject(ctx, v, lambda: Y.ttt(X, np.array([0, 1]), np.array([0, 0])), X, Y)
+    elif v == "innerprod_orders_differ":
+        o = shape + [1] if b % 2 else ([1] + shape if b % 4 == 0 else shape[:-1])
+        if list(o) == shape:
+            o = shape + [1]
+        X = holder(case["first"], shape, k, case["pattern"], r)
+        Y = other(case["other"], o, k + 1, ["some", "full", "empty", "zeros"][a % 4], r)
+        ctx.label("first-" + case["first"], "other-" + case["other"])
+        reject(ctx, f"{v}/{case['first']}/{case['other']}", lambda: X.innerprod(Y), X, Y)
+    elif v in ("ttv_list_length", "ttm_list_length"):
+        if N < 3:
+            shape = shape + [1]
+            N = 3
+        kinds = ["tensor", "sptensor", "ktensor", "ttensor", "sumtensor"] if v.startswith("ttv") else ["tensor", "sptensor", "ttensor"]
+        what = kinds[a % len(kinds)]
+        X = holder(what, shape, k, case["pattern"], r)
+        n = b % N
+        nxt = (n + 1) % N
+        mk = (lambda s, j=0: _vec(s, j)) if v.startswith("ttv") else (lambda s, j=0: num(np.array(vals_for(s * 2, j), dtype=float).reshape(2, s)))
+        if (a + b) % 2:  # two multiplicands, one mode
+            ms, d = [mk(shape[n]), mk(shape[nxt], 1)], [n]
+        else:  # one multiplicand (in a list), two modes
+            ms, d = [mk(shape[n])], sorted([n, nxt])
+        ctx.label(what, f"{len(ms)}-multiplicands-{len(d)}-dims")
+        fn = (lambda: X.ttv(ms, np.array(d))) if v.startswith("ttv") else (lambda: X.ttm(ms, np.array(d)))
+        reject(ctx, f"{v}/{what}", fn, X, ms)
+    elif v == "ttv_vector_wrong_length":
+        # a one-entry vector for a proper mode / a longer vector for a singleton mode, every other mode a singleton
+        n = a % N
+        sh = [1] * N
+        if b % 2:
+            sh[n], L = 2 + b % 3, 1
+        else:
+            sh[n], L = 1, 2 + b % 3
+        what = ["tensor", "sptensor", "ktensor", "ttensor", "sumtensor"][k % 5]
+        X = holder(what, sh, k, case["pattern"], r)
+        vec = _vec(L)
+        ctx.label(what, "one-entry-vector-for-proper-mode" if L == 1 else "long-vector-for-singleton-mode")
+        if (a // 4) % 2:
+            vs = [_vec(s, j) for j, s in enumerate(sh)]
+            vs[n] = vec
+            reject(ctx, f"{v}/{what}", lambda: X.ttv(vs), X, vs)
+        else:
+            reject(ctx, f"{v}/{what}", lambda: X.ttv(vec, n), X, vec)
+    elif v == "mttkrp_single_column_factor":
+        if N < 3:
+            shape = shape + [2]
+            N = 3
+        what = case["first"]
+        X = holder(what, shape, k, case["pattern"], 2)
+        n, i = mttkrp_onecol(case)
+        U = [num(np.array(vals_for(s * r, j), dtype=float).reshape(s, r)) for j, s in enumerate(shape)]
+        U[i] = U[i][:, :1].copy()  # r >= 2 columns everywhere else
+        ctx.label(what)
+        reject(ctx, f"{v}/{what}", lambda: X.mttkrp(U, n), X, U)
+    elif v == "scale_factor_for_fewer_dims":
+        what = ["tensor", "sptensor"][k % 2]
+        n = a % N
+        sh = list(shape)
+        mlist = [j for j in range(N) if j != n]
+        m = mlist[b % len(mlist)]
+        sh[m] = 1  # the extra mode is a singleton: a factor for mode n alone has as many entries as modes (n, m) together
+        if sh[n] == 1 and b % 2:
+            sh[n] = 3
+        X = holder(what, sh, k, case["pattern"])
+        f = num(np.arange(1.0, sh[n] + 1))
+        d = np.array(sorted([n, m]))
+        ctx.label(what)
+        reject(ctx, f"{v}/{what}", lambda: X.scale(f, d), X, f)
+    elif v == "sparse_operator_orders_differ":
+        ops = sorted(_OPS)
+        op = ops[a % len(ops)]
+        o = shape + [1] if b % 2 else shape[:-1]
+        rhs = ["sptensor", "tensor"][(b // 2) % 2]
+        X = sparse(shape, case["pattern"], k)
+        Y = other(rhs, o, k + 1, ["some", "full", "empty", "zeros"][a % 4])
+        ctx.label("op-" + op, "rhs-" + rhs)
+        fn = _OPS[op][0]
+        reject(ctx, f"{v}/{op}/{rhs}", lambda: fn(X, Y), X, Y)
+    elif v == "kruskal_sum_orders_differ":
+        o = shape + [1] if b % 2 else shape[:-1]
+        X, Y = kten(shape, r, k), kten(o, r, k + 1, role="other")
+        reject(ctx, v, (lambda: X + Y) if a % 2 else (lambda: X - Y), X, Y)
+    else:
+        what = ["tensor", "sptensor"][k % 2]
+        sh = [1] * max(N, 2)
+        i = a % len(sh)
+        sh[i] = 2 + b % 3
+        j = [m for m in range(len(sh)) if m != i][b % (len(sh) - 1)]
+        X = holder(what, sh, k, case["pattern"])
+        ctx.label(what)
+        reject(ctx, f"{v}/{what}", (lambda: X.contract(i, j)) if a % 2 else (lambda: X.contract(j, i)), X)
+
+
+_V = stated(
+    "C19/modes",
+    collapse_mode_invalid="tensor.py:696 'Values in cdims must be in [0, source.ndims].' / pyttb_utils.py:181 \"Negative dims aren't "
+                          "allowed in pyttb\" / 'Repeated dims aren't allowed'; [property statement] mode arguments out of range, "
+                          "negative or repeated",
+    contract_mode_invalid="[property statement] mode arguments that are out of range or negative (tensor.contract: 'Invalid "
+                          "permutation order' / IndexError)",
+    mttkrp_mode_invalid="[property statement] mode arguments that are out of range (n == ndims: IndexError in every holder)",
+)
+
+
+def modes_class(c):
+    """pure function of the case: (holder, which way the mode is invalid)"""
+    kinds = {"collapse_mode_invalid": ["tensor", "sptensor"], "contract_mode_invalid": ["tensor", "sptensor"],
+             "mttkrp_mode_invalid": ["tensor", "sptensor", "ktensor", "ttensor", "sumtensor"]}[c["viol"]]
+    # (a negative mode in mttkrp is answered or rejected depending on holder and shape: not demanded)
+    how = ["equal-bound", "negative", "repeated"][c["b"] % {"collapse_mode_invalid": 3, "contract_mode_invalid": 2,
+                                                              "mttkrp_mode_invalid": 1}[c["viol"]]]
+    return kinds[c["k"] % len(kinds)], how
+
+
+@table("C19/modes", _V, per=30, min_order=3, max_order=4, tmul=8)
+def c_modes(ctx, case):
+    begin(ctx, "C19/modes", case)
+    shape, a, b, v, r = list(case["shape"]), case["a"], case["b"], case["viol"], case["r"] + 1
+    N = len(shape)
+    what, how = modes_class(case)
+    ctx.label(what, "mode-" + how)
+    X = holder(what, shape, case["k"], case["pattern"], 2)
+    name = f"{v}/{how}/{what}"
+    if v == "collapse_mode_invalid":
+        good = a % N
+        d = {"equal-bound": [good, N], "negative": [good - N] if a % 2 else [-1, good], "repeated": [good, good]}[how]
+        if how == "equal-bound" and a % 3 == 0:
+            d = [N]
+        arg = np.array(d, dtype=int)
+        reject(ctx, name, lambda: X.collapse(arg), X)
+    elif v == "contract_mode_invalid":
+        # two singleton modes so that the sizes agree whichever mode the invalid number is taken for
+        sh = list(shape)
+        i = a % N
+        sh[i] = sh[0] = sh[N - 1] = 1
+        X = holder(what, sh, case["k"], case["pattern"])
+        j = N if how == "equal-bound" else (-1 if i != N - 1 else -N)
+        reject(ctx, name, (lambda: X.contract(i, j)) if (a // 4) % 2 else (lambda: X.contract(j, i)), X)
+    else:
+        U = [num(np.array(vals_for(s_ * r, j), dtype=float).reshape(s_, r)) for j, s_ in enumerate(shape)]
+        n = N if how == "equal-bound" else -1 - a % N
+        reject(ctx, name, lambda: X.mttkrp(U, n), X, U)
+
+
+# ==========================================================================
 # predicates for known findings (pure functions of the case)
 # ==========================================================================
 
@@ -2341,6 +2861,15 @@ PREDICATES = {
     "stored_subscripts_fit_other_shape": _stored_subs_fit_other,
     # sptensor.__init__ compares np.max(subs) + 1 with the shape in the dtype of subs
     "offending_subscript_is_255_in_uint8": lambda c: ctor_subs_class(c)[1],
+    # round 4: the valid part of the rejected assignment would have enlarged the receiver
+    "setitem_dense_would_grow": lambda c: setitem_class(c)[0] == "tensor" and (setitem_class(c)[1] or setitem_class(c)[2]),
+    "setitem_sparse_would_add_a_mode": lambda c: setitem_class(c)[0] == "sptensor" and setitem_class(c)[2],
+    # sptensor.mttkrp reads the rank off U[1] (n == 0) or U[0]: a single column there is taken as the rank; ktensor.mttkrp
+    # multiplies column blocks with NumPy broadcasting whatever the position
+    "single_column_factor_goes_unnoticed": lambda c: c["first"] == "ktensor" or (
+        c["first"] == "sptensor" and mttkrp_onecol(c)[1] == (1 if mttkrp_onecol(c)[0] == 0 else 0)),
+    "setitem_sparse_array_value_would_grow": lambda c: (setitem_class(c)[0] == "sptensor" and setitem_class(c)[1]
+                                                       and _setitem_value_kind(c) != "sptensor-list-key"),
 }
 
 ASSUMPTIONS += [f"table row {k}: stated by {v}" for k, v in sorted(STATED.items())]
